@@ -5,8 +5,10 @@ From Coq Require Import ZifyN ZifyNat ZifyBool.
 Export ListNotations.
 Open Scope N_scope.
 
-Definition byte := N.
-Definition bytes := list N.
+(* notations rather than definitions: [bytes] and [list N] are then syntactically the same term,
+   which keeps lia/rewrite from seeing two different atoms *)
+Notation byte := N (only parsing).
+Notation bytes := (list N) (only parsing).
 
 Definition byte_ok (b : N) : bool := b <? 256.
 Definition bytes_ok (bs : bytes) : bool := forallb byte_ok bs.
